@@ -11,10 +11,13 @@
 //   L skip names matching            GetLatestCheckpoint
 //   F cur ck                         restoreFromPath's file plan on crafted directories (mem engine)
 //   TB keepA keepB hA hB             begin of a value-level trace on two stores (h = observed value id)
-//   TO W s h | B s t i h | G s dg | R s t i | Y s t i | S s i | O s t i | X s | Z s     one op of the trace
+//   TO W s h | B s t i h | G s dg h | R s t i | Y s t i | S s i | O s t i | X s | Z s h    one op of the trace
 //   K at                             K1 probe (writes racing with the checkpoint copy)
 // Value ids (h) and checkpoint digests (dg) are OBSERVATIONS of the implementation handed to the
-// model, which is parametric in what a write does; everything else on a T line is predicted.
+// model, which is parametric in what a write does. They appear on the ops that may legitimately
+// change the engine content: writes, and the ops that flush the in-memory HyperLogLog write cache
+// into the engine (Backup, close+reopen). Everything else on a T line is predicted, in particular
+// the content after every Restore.
 package main
 
 import (
@@ -271,8 +274,10 @@ func generate(r *hx.Rng) []cs {
 		for k := 0; k < *nTrace; k++ {
 			tr := genTrace(r, e, *lenTr, false)
 			cases = append(cases, cs{id: next(), kind: "T", tr: &tr})
-			ts := genTrace(r, e, *lenTr*2/3, true)
-			cases = append(cases, cs{id: next(), kind: "T", tr: &ts})
+			if e != "mem" { // the purge barrier is close+reopen, which empties a mem store
+				ts := genTrace(r, e, *lenTr*2/3, true)
+				cases = append(cases, cs{id: next(), kind: "T", tr: &ts})
+			}
 		}
 	}
 	for _, e := range strings.Split(*k1engs, ",") {
@@ -465,7 +470,7 @@ func runTrace(id string, tr *trace, co, io, sk *hx.Out) {
 			if _, err := os.Stat(path.Join(s.db().GetBackupDir(), name)); err == nil {
 				dg = dirDigest(path.Join(s.db().GetBackupDir(), name))
 			}
-			co.Printf("%s\tTO\tG\t%d\t%s\n", lid, o.s, dg)
+			co.Printf("%s\tTO\tG\t%d\t%s\t%s\n", lid, o.s, dg, s.valueID())
 		case "R":
 			res = s.restore(o.t, o.i)
 			co.Printf("%s\tTO\tR\t%d\t%x\t%x\n", lid, o.s, o.t, o.i)
@@ -485,7 +490,7 @@ func runTrace(id string, tr *trace, co, io, sk *hx.Out) {
 			if err := s.reopen(); err != nil {
 				res = "reopenerr"
 			}
-			co.Printf("%s\tTO\tZ\t%d\n", lid, o.s)
+			co.Printf("%s\tTO\tZ\t%d\t%s\n", lid, o.s, s.valueID())
 		}
 		io.Printf("%s\t%s\n", lid, obs(res))
 	}
